@@ -35,6 +35,13 @@ func c08StubWithCompression(rwc io.ReadWriteCloser) io.ReadWriteCloser {
 	return &c08Layer{kind: "comp", inner: rwc}
 }
 
+var c08Recycled int
+
+// pooled compressor: the recycle function hands reader and writer to the next stream that asks
+func c08StubWithCompressionFromPool(rwc io.ReadWriteCloser) (io.ReadWriteCloser, func()) {
+	return &c08Layer{kind: "comp", inner: rwc}, func() { c08Recycled++ }
+}
+
 type c08Conn struct{ closed int }
 
 func (c *c08Conn) Read(p []byte) (int, error)         { return 0, io.EOF }
@@ -51,6 +58,7 @@ var c08Users = []string{"", "alice", "bob", "*"}
 // VerifC08VisitorConn: a visitor stream is queued for a secret proxy only with the right
 // signature and an allowed user; anything else is an error and leaves no state.
 func VerifC08VisitorConn() {
+	c08Recycled = 0
 	vm := NewManager()
 	// registered secret proxies: "p1" always, "p2" optionally
 	sk1 := zzverif.StringUpTo("sk1", 1, "ab")
@@ -102,6 +110,8 @@ func VerifC08VisitorConn() {
 				want = "comp," + want
 			}
 			zzverif.Assert(kinds == want, "C08.stack.visitor-layers-as-declared")
+			// the stream now belongs to the proxy owner: its compressor must not have been handed back
+			zzverif.Assert(c08Recycled == 0, "C08.stack.compressor-stays-with-the-queued-stream")
 			if enc {
 				zzverif.Assert(key == sk1, "C08.stack.encryption-keyed-by-secret")
 			}
